@@ -1,6 +1,7 @@
 """Shared model for ORDER BY / LIMIT checks (C05, C06, C19): typed sort keys from lstat."""
 import os
 import stat
+import time
 
 from fsx.core import D, F
 
@@ -17,7 +18,11 @@ KEYS = {
     'size * 2': ('num', lambda e: e['size'] * 2),
     'size + hardlinks': ('num', lambda e: e['size'] + e['nlink']),
     'size - 50': ('num', lambda e: e['size'] - 50),
+    'day(modified)': ('num', lambda e: time.gmtime(e['mtime']).tm_mday),
+    'year(modified)': ('num', lambda e: time.gmtime(e['mtime']).tm_year),
+    '1000 - size': ('num', lambda e: 1000 - e['size']),          # literal on the left: written by position only
 }
+POSITIONAL_ONLY = {'1000 - size'}
 
 
 def ord_tree():
